@@ -122,6 +122,16 @@ Theorem C08_undefined_call_equal_refuted :
 Proof. exact undefined_call_equal_refuted. Qed.
 Print Assumptions C08_undefined_call_equal_refuted.
 
+(* C08-bare-symbol-body: a bare symbol as a body form that is neither a parameter nor an existing package
+   variable is bound, when the defun is evaluated, to a package variable created on the spot: the function
+   then ignores a caller's binding of that name (and answers the "unbound" marker object instead of
+   signalling); evaluating the same defun again leaves the symbol alone.  Same code object evaluated twice:
+   M gives [1; 5] where S gives [5; 5].  Guard clause G3 (g_body). *)
+Theorem C08_bare_body_symbol_refuted :
+  exists ops a b, runS 50 sinit ops = [a; a] /\ runM 50 minit ops = [b; a] /\ comparable (fst a) = true /\ a <> b.
+Proof. exact bare_body_symbol_refuted. Qed.
+Print Assumptions C08_bare_body_symbol_refuted.
+
 (* (10) The invariant holds initially; the hypotheses are satisfiable in a non-trivial reachable state
    (forward reference patched, compiled slots holding both the registered and a newer Lambda). *)
 Theorem C08_invariant_init : Inv init.
